@@ -411,6 +411,46 @@ pub fn check(property: &str, tier: &str, started: Instant) -> i32 {
         println!("  signature={} runs_with_it={} first_seed={}", f.signature, agg.failure_counts.get(k).copied().unwrap_or(0), f.seed);
         println!("  what: {}", violation.get("detail").and_then(|d| d.as_str()).unwrap_or("").chars().take(500).collect::<String>());
     }
+    // cross-check of the transport stub with the real binary over real stdio (C12 only)
+    let mut stdio_sessions = 0u64;
+    let mut stdio_requests = 0u64;
+    if property == "C12" {
+        let iwes = std::env::var("VERIF_IWES_BIN").map(std::path::PathBuf::from).unwrap_or_else(|_| runner::verif_path("target/iwe/release/iwes"));
+        if !iwes.exists() {
+            eprintln!("HARNESS-ERROR: {} missing (run ./check setup)", iwes.display());
+            return 2;
+        }
+        let sessions = if tier == "thorough" { 12 } else { 3 };
+        let scratch = runner::verif_path("target/scratch");
+        for k in 0..sessions {
+            match crate::stdio_check::run_session(&iwes, &scratch, rng::mix2(seed, 7000 + k)) {
+                Err(e) => {
+                    eprintln!("HARNESS-ERROR: stdio session: {}", e);
+                    return 2;
+                }
+                Ok(o) => {
+                    stdio_sessions += 1;
+                    stdio_requests += o.requests as u64;
+                    for (sig, detail) in o.violations {
+                        if runner::known(&findings, "C12", &sig).is_some() {
+                            continue;
+                        }
+                        violations += 1;
+                        let path = runner::replay_path(&format!("C12-stdio-{}-{}.json", seed, k));
+                        let rv = json!({"world": "A-stdio", "property": "C12", "signature": sig, "seed": seed, "session": k, "minimised": false,
+                            "violation": {"kind": sig, "detail": detail}, "case": {"stdio_session_seed": rng::mix2(seed, 7000 + k)},
+                            "how_to_replay": "cd /verif && ./check replay <this file>  (runs the same scripted session against the freshly built iwes binary; real stdio, timing not controlled)"});
+                        if let Err(e) = runner::write_json(&path, &rv) {
+                            eprintln!("HARNESS-ERROR: {}", e);
+                            return 2;
+                        }
+                        println!("VIOLATION property=C12 replay={}", path.display());
+                        println!("  signature={} what: {}", rv["signature"], rv["violation"]["detail"]);
+                    }
+                }
+            }
+        }
+    }
     let rule = if property == "C11" {
         "A case is one generated client program (library + 4-14 messages: didChange/didSave with unique version tokens, every request kind, dependent codeAction/resolve and apply-edit steps) executed through the real router under one seeded schedule (which of client / loop / worker k moves next at every step). Distinct = hash of the full choice list. Non-trivial = the loop handled an edit notification while at least one request worker was alive (spawned-not-started / computed-not-sent / responded-not-exited), or exit/new-key overlap probes fired."
     } else {
@@ -423,6 +463,7 @@ pub fn check(property: &str, tier: &str, started: Instant) -> i32 {
         } else {
             "exactly-once responses per request id at quiescence, no unknown ids, liveness probe after every faulty request answered as the sequential reference answers it, exit returns Ok, crash terminates the loop"
         },
+        "real_binary_stdio_cross_check": {"sessions": stdio_sessions, "requests": stdio_requests, "what": "the release iwes binary built from /repo with the workspace profile, driven over real pipes: bursts of 60-160 requests written back to back, requests that must be answered with an error, edit visibility, shutdown/exit status"},
         "distinct_measure": "distinct_cases = distinct choice lists; states = distinct abstract states (loop phase, multiset of worker phases, inbox length capped at 3, notifications sent mod 4)",
     });
     let ev = EvidenceIn {
@@ -463,6 +504,25 @@ pub fn replay(v: &Value, path: &str) -> i32 {
     let property = v["property"].as_str().unwrap_or("");
     let signature = v["signature"].as_str().unwrap_or("");
     let seed = v["seed"].as_u64().unwrap_or(0);
+    if let Some(s) = v["case"].get("stdio_session_seed").and_then(|s| s.as_u64()) {
+        let iwes = std::env::var("VERIF_IWES_BIN").map(std::path::PathBuf::from).unwrap_or_else(|_| runner::verif_path("target/iwe/release/iwes"));
+        return match crate::stdio_check::run_session(&iwes, &runner::verif_path("target/scratch"), s) {
+            Err(e) => {
+                eprintln!("HARNESS-ERROR: {}", e);
+                2
+            }
+            Ok(o) => {
+                if let Some((sig, detail)) = o.violations.iter().find(|(sig, _)| sig == signature) {
+                    println!("VIOLATION property=C12 replay={}", path);
+                    println!("  reproduced: {} - {}", sig, detail);
+                    1
+                } else {
+                    println!("not reproduced: {} requests answered exactly once, violations {:?}", o.requests, o.violations);
+                    0
+                }
+            }
+        };
+    }
     if let Some(r) = v["case"].get("regenerate") {
         // a run that killed its process is replayed in a child process
         let exe = std::env::current_exe().expect("exe");
